@@ -128,10 +128,11 @@ PROPS = {
             'LiveEvents::next / peek: a stored reader error is reported as Error::IOError before any event (not even a buffered look-ahead) is handed out',
             'LiveEvents::finish: a stored reader error is reported at the end; otherwise a delayed budget breach is surfaced',
             'io_error: Ok exactly when the shared cell is empty',
+            'ReadIter::next (document iterator of read / read_with_options): no result of the event source that carries the deferred reader error is ever discarded before the iterator ends quietly or delivers a document (ghost-tracked); a finished iterator stays finished; it ends only by marking itself finished',
             'an error stored while pumping is never consumed by next/peek themselves: it stays in the cell for finish (or the next call) to report',
             'ChunkedChars::next: it signals end of input only when nothing is left, or after storing an error in the shared cell (reader error of ANY kind, EOF inside a code point, invalid lead byte / sequence, byte cap exceeded); total_bytes never exceeds the cap; at most 4 bytes are requested per character',
         ],
-        not_covered=['BufReader / decoder read-ahead; that every reader entry point ends with finish(); writer side'],
+        not_covered=['BufReader / decoder read-ahead; the feature-gated copies of the iterator (read_*_valid / read_*_validate; same text, repaired alike, not extracted); termination of ReadIter::next; writer side'],
         assumptions=['interior mutability of the shared error cell is made explicit (rule R28: io_error takes &mut self and consumes the cell); the reader may fill the cell during any pump step'],
     ),
     'C11': dict(
@@ -140,7 +141,7 @@ PROPS = {
             'next_impl body: at EVERY DocumentStart and DocumentEnd the per-document state is clear when the arm is left (in-body obligations C11:document_start/end_clears_per_document_state)',
             'skip_to_next_document: consumes raw items up to and including the first DocumentStart (true) or scan error / StreamEnd / exhaustion (false), terminates, drops look-ahead and replay state, leaves a clean per-document state and restarts the budget',
         ],
-        not_covered=['ReadIter::next; equality with per-document deserialization'],
+        not_covered=['equality with per-document deserialization; that a failed document is skipped exactly to the next document start is proved for skip_to_next_document, whose two environment preconditions are not re-checked at the iterator\'s call site'],
         assumptions=['parser spans are well formed (ordered marks below 4 GiB)'],
     ),
     'C17': dict(
